@@ -168,6 +168,7 @@ def build(net, description="vv generated", with_metadata=True):
             co = b.CreateByteVector(bytes(o.custom_options))
         ins = _vec(b, Operator.OperatorStartInputsVector, [tidx[i] if i is not None else -1 for i in o.inputs], b.PrependInt32)
         outs = _vec(b, Operator.OperatorStartOutputsVector, [tidx[i] for i in o.outputs], b.PrependInt32)
+        inter = _vec(b, Operator.OperatorStartIntermediatesVector, [tidx[i] for i in o.intermediates], b.PrependInt32) if getattr(o, "intermediates", None) else None
         Operator.OperatorStart(b)
         Operator.OperatorAddOpcodeIndex(b, codes.index((o.code, o.version, o.custom_code)))
         Operator.OperatorAddInputs(b, ins)
@@ -177,6 +178,8 @@ def build(net, description="vv generated", with_metadata=True):
             Operator.OperatorAddBuiltinOptions(b, opt_off)
         if co is not None:
             Operator.OperatorAddCustomOptions(b, co)
+        if inter is not None:
+            Operator.OperatorAddIntermediates(b, inter)
         ooffs.append(Operator.OperatorEnd(b))
     tv = _vec(b, SubGraph.SubGraphStartTensorsVector, toffs, b.PrependUOffsetTRelative)
     iv = _vec(b, SubGraph.SubGraphStartInputsVector, [tidx[i] for i in inputs], b.PrependInt32)
